@@ -672,6 +672,15 @@ func search(cases, res string) {
 		r := parseRaw(f[3:10])
 		x := tbl.Expand(r)
 		got := rm[f[0]]
+		// hygiene (hidden state between calls): the test driver runs the read-only routines twice on the same boxes and every
+		// second table case on boxes whose lookup helpers have been asked about the first, middle and LAST sample before
+		// (c10_verif_test.go vWarm / vTwice); a second answer that differs is reported here, a first answer that differs
+		// from the fresh-box behaviour by the oracles below and by the model correspondence
+		if i := strings.Index(got, "=hidden-state/"); i >= 0 {
+			evals++
+			fail("cmd/mp4ff-crop."+f[1], "second-call-differs", l, "the routine called a second time on the same boxes answers differently: "+got)
+			continue
+		}
 		switch f[1] {
 		case "crop":
 			k, _ := strconv.Atoi(f[2])
